@@ -107,7 +107,12 @@ func c19Instants(c mintCfg) []time.Duration {
 		} else if p.End != 0 {
 			unit = (p.End - ps) / 3
 		}
-		for _, d := range []time.Duration{time.Millisecond, unit / 2, unit, unit * 5 / 2} {
+		ds := []time.Duration{time.Millisecond, unit / 2, unit, unit * 5 / 2}
+		if p.Kind == ref.ExpStep && p.End == 0 && p.Step <= time.Hour {
+			// an old schedule: many steps into an open-ended exponential period
+			ds = append(ds, unit*129/2, unit*131/2, unit*301/2)
+		}
+		for _, d := range ds {
 			if p.End == 0 || ps+d < p.End {
 				add(ps + d)
 			}
